@@ -13,7 +13,7 @@ From Coq Require Import ZArith List Bool Arith Lia.
 Require Import Kawin.C09.Model.
 Import ListNotations.
 
-Ltac csimpl := cbn [df_cs mat_cs pts diff_cs curv_cs set_pts set_df set_mat set_diff set_curv fst snd].
+Ltac csimpl := cbn [df_cs mat_cs pts diff_cs curv_cs curv_out set_pts set_df set_mat set_diff set_curv set_curv_out clear_cache fst snd].
 
 Section ThermoProofs.
   Variables X Tm G Y Res Smp Val : Type.
@@ -37,12 +37,13 @@ Section ThermoProofs.
   Variable xval : cset -> Val.
   Variable aval : cset -> Res -> Res -> Val.
   Variable same_comp : cset -> list cset -> bool.
+  Variable cval : Res -> cset -> cset -> Val.
 
   Notation phs := (map (@cs_ph Tm G Y)).
   Notation mkcs := (@mkcs Tm G Y).
-  Notation tstate := (tstate Tm G Y Smp).
-  Notation t_init := (@t_init Tm G Y Smp).
-  Notation obj_init := (@obj_init Tm G Y Smp).
+  Notation tstate := (tstate Tm G Y Smp Val).
+  Notation t_init := (@t_init Tm G Y Smp Val).
+  Notation obj_init := (@obj_init Tm G Y Smp Val).
   Notation local_eq := (local_eq cdT cdG solve naive).
   Notation refresh := (refresh cdT cdG).
   Notation diffusivity := (diffusivity cdT cdG cond_x g0 solve naive).
@@ -51,11 +52,12 @@ Section ThermoProofs.
   Notation df_tangent := (df_tangent Tm_eqb cdT cdG cond_x cond_mu g0 gOff solve naive is_nan sample best gval xval same_comp).
   Notation compsets_eq := (@compsets_eq X Tm G Y Res Cd cdT cdG cond_x gOff solve naive is_nan global_eq).
   Notation df_approx := (df_approx Tm_eqb cdT cdG cond_x g0 gOff solve naive is_nan sample best global_eq xval aval).
-  Notation run1 := (run1 Tm_eqb cdT cdG cond_x cond_mu g0 gOff solve naive is_nan sample best global_eq dval tval gval xval aval same_comp).
-  Notation run := (run Tm_eqb cdT cdG cond_x cond_mu g0 gOff solve naive is_nan sample best global_eq dval tval gval xval aval same_comp).
+  Notation run1 := (run1 Tm_eqb cdT cdG cond_x cond_mu g0 gOff solve naive is_nan sample best global_eq dval tval gval xval aval same_comp cval).
+  Notation run := (run Tm_eqb cdT cdG cond_x cond_mu g0 gOff solve naive is_nan sample best global_eq dval tval gval xval aval same_comp cval).
+  Notation curvature := (curvature cdT cdG cond_x gOff solve naive is_nan global_eq cval).
   Notation query := (query X Tm).
   Notation answer := (answer Val).
-  Notation obj := (obj Tm G Y Smp).
+  Notation obj := (obj Tm G Y Smp Val).
 
   (* ---- what kawin does, whatever pycalphad does ---- *)
 
@@ -168,7 +170,8 @@ Section ThermoProofs.
     wf_mat : okstart [0%nat] (mat_cs s);
     wf_diff : forall p l, aget p (diff_cs s) = Some l -> phs l = [p];
     wf_pts : forall p T sm, aget p (pts s) = Some (T, sm) -> sm = sample p T;
-    wf_df : forall p l, aget p (df_cs s) = Some l -> df_shape m p (phs l) }.
+    wf_df : forall p l, aget p (df_cs s) = Some l -> df_shape m p (phs l);
+    wf_curv : forall p l, aget p (curv_cs s) = Some l -> phs l = [0%nat; p] }.
 
   Lemma wf_init m : wf m t_init.
   Proof. constructor; simpl; try discriminate; auto. Qed.
@@ -247,7 +250,7 @@ Section ThermoProofs.
   Qed.
 
   Lemma wf_set_mat m (s : tstate) l : wf m s -> phs l = [0%nat] -> wf m (set_mat s (Some l)).
-  Proof. intros W H. constructor; csimpl; [exact H | apply W | apply W | apply W]. Qed.
+  Proof. intros W H. constructor; csimpl; [exact H | apply W | apply W | apply W | apply W]. Qed.
 
   Lemma wf_set_df_none m (s : tstate) p : wf m s -> wf m (set_df s (aset p None (df_cs s))).
   Proof.
@@ -457,12 +460,84 @@ Section ThermoProofs.
     destruct (is_nan res); [exact W1 | apply wf_reset; exact W1].
   Qed.
 
+  (* ---- curvature factors ---- *)
+  Lemma wf_set_curv m (s : tstate) p (o : option (list cset)) : wf m s -> okstart [0%nat; p] o ->
+    wf m (set_curv s (aset p o (curv_cs s))).
+  Proof.
+    intros W H. constructor; csimpl; try apply W.
+    intros q l. rewrite aget_aset. destruct (Nat.eqb p q) eqn:E.
+    - apply Nat.eqb_eq in E. subst q. destruct o as [l0|]; [|discriminate]. intros H'; inversion H'; subst. exact H.
+    - apply W.
+  Qed.
+
+  Lemma wf_set_curv_out m (s : tstate) v : wf m s -> wf m (set_curv_out s v).
+  Proof. intros W. constructor; csimpl; apply W. Qed.
+
+  Lemma curv_okstart m (s : tstate) p : wf m s -> okstart [0%nat; p] (aget p (curv_cs s)).
+  Proof. intros W. destruct (aget p (curv_cs s)) eqn:A; simpl; [exact (wf_curv _ _ W _ _ A) | exact I]. Qed.
+
+  Lemma curvature_history m m' (s s' : tstate) x T p rm : wf m s -> wf m' s' -> two_phase x T p ->
+    snd (curvature s x T p rm) = snd (curvature s' x T p rm).
+  Proof.
+    intros W W' TP. unfold Model.curvature.
+    pose proof (curv_okstart m s p W) as O. pose proof (curv_okstart m' s' p W') as O'.
+    assert (E : compsets_eq (aget p (curv_cs s)) x T p = compsets_eq (aget p (curv_cs s')) x T p).
+    { transitivity (compsets_eq None x T p).
+      - destruct (aget p (curv_cs s)); [apply compsets_eq_history; assumption | reflexivity].
+      - destruct (aget p (curv_cs s')); [symmetry; apply compsets_eq_history; assumption | reflexivity]. }
+    rewrite E. destruct (compsets_eq_shape x T p _ TP O') as (mu & cm & cp & -> & Hph). reflexivity.
+  Qed.
+
+  Lemma curvature_wf m (s : tstate) x T p rm : wf m s -> two_phase x T p -> wf m (fst (curvature s x T p rm)).
+  Proof.
+    intros W TP. unfold Model.curvature.
+    pose proof (curv_okstart m s p W) as O.
+    destruct (compsets_eq_shape x T p _ TP O) as (mu & cm & cp & -> & Hph).
+    cbn [fst]. apply wf_set_curv_out.
+    set (s0 := match aget p (curv_cs s) with
+               | Some l0 => set_curv s (aset p (Some (snd (local_eq [0%nat; p] (cond_x x T gOff) (Some l0)))) (curv_cs s))
+               | None => s end).
+    assert (W0 : wf m s0).
+    { unfold s0. destruct (aget p (curv_cs s)) as [l0|] eqn:A; [|exact W].
+      apply wf_set_curv; [exact W|].
+      exact (local_eq_phases [0%nat; p] (cond_x x T gOff) (Some l0) (wf_curv _ _ W _ _ A)). }
+    apply wf_set_curv; [exact W0|]. destruct rm; simpl; [exact I | exact Hph].
+  Qed.
+
+  (* removeCache = True: the answer is computed from the equilibrium of THIS call or is None - never a
+     stored earlier result - and nothing is left in the curvature cache of the phase.
+     (No hypothesis about pycalphad, any state, any point.) *)
+  Lemma curvature_remove_cache (s : tstate) x T p :
+    snd (curvature s x T p true) =
+      match compsets_eq (aget p (curv_cs s)) x T p with
+      | Some (mu, Some cm, Some cp) => Some (cval mu cm cp)
+      | _ => None
+      end /\
+    aget p (curv_cs (fst (curvature s x T p true))) = None.
+  Proof.
+    unfold Model.curvature.
+    destruct (compsets_eq (aget p (curv_cs s)) x T p) as [[[mu [cm|]] [cp|]]|]; csimpl;
+      rewrite ?aget_aset, ?Nat.eqb_refl; csimpl; rewrite ?aget_aset, ?Nat.eqb_refl; split; reflexivity.
+  Qed.
+
+  (* removeCache = False outside the two-phase region: the deliberate fall-back on the previous result *)
+  Lemma curvature_fallback (s : tstate) x T p l0 :
+    aget p (curv_cs s) = Some l0 ->
+    (forall mu cm cp, compsets_eq (Some l0) x T p <> Some (mu, Some cm, Some cp)) ->
+    snd (curvature s x T p false) = aget p (curv_out s).
+  Proof.
+    intros A Hinv. unfold Model.curvature. rewrite A.
+    destruct (compsets_eq (Some l0) x T p) as [[[mu [cm|]] [cp|]]|] eqn:E;
+      try (exfalso; eapply Hinv; reflexivity); csimpl; rewrite aget_aset, Nat.eqb_refl; reflexivity.
+  Qed.
+
   (* ---- histories ---- *)
   (* queries inside the domain of the statement: driving forces by the approximate method only at
      points of the two-phase region *)
   Definition in_domain (m : method) (q : query) : Prop :=
     match q, m with
     | QDF x T p _, Approx => two_phase x T p
+    | QCurv x T p _, _ => two_phase x T p
     | _, _ => True
     end.
 
@@ -471,10 +546,13 @@ Section ThermoProofs.
   Lemma wf_change_method m m' (s : tstate) : wf m s -> wf m' (set_df s []).
   Proof. intros W. constructor; csimpl; try apply W. discriminate. Qed.
 
+  Lemma wf_clear m (s : tstate) : wf m (clear_cache s).
+  Proof. constructor; csimpl; try discriminate. exact I. Qed.
+
   Lemma run1_wf (o : obj) q : wfo o -> in_domain (fst o) q -> wfo (fst (run1 o q)).
   Proof.
     destruct o as [m s]. unfold wfo. simpl. intros W D.
-    destruct q as [x T p rm|x T p rm|x T p rm| |m']; simpl.
+    destruct q as [x T p rm|x T p rm|x T p rm|x T p rm| |m']; simpl.
     - destruct m; simpl in D.
       + pose proof (df_tangent_wf s x T p rm W). destruct (df_tangent s x T p rm). exact H.
       + pose proof (df_sampling_wf Sampling s x T p rm W). destruct (df_sampling s x T p rm). exact H.
@@ -483,7 +561,9 @@ Section ThermoProofs.
       destruct (diffusivity dval s x T rm p). exact H.
     - pose proof (diffusivity_wf tval m s x T rm p W) as H. unfold tracer.
       destruct (diffusivity tval s x T rm p). exact H.
-    - apply wf_init.
+    - assert (TP : two_phase x T p) by (destruct m; exact D).
+      pose proof (curvature_wf m s x T p rm W TP) as H. destruct (curvature s x T p rm). exact H.
+    - apply wf_clear.
     - apply (wf_change_method m m'). exact W.
   Qed.
 
@@ -491,7 +571,7 @@ Section ThermoProofs.
   Lemma run1_history m (s s' : tstate) q : wf m s -> wf m s' -> in_domain m q ->
     snd (run1 (m, s) q) = snd (run1 (m, s') q).
   Proof.
-    intros W W' D. destruct q as [x T p rm|x T p rm|x T p rm| |m']; simpl; try reflexivity.
+    intros W W' D. destruct q as [x T p rm|x T p rm|x T p rm|x T p rm| |m']; simpl; try reflexivity.
     - destruct m; simpl in D.
       + pose proof (df_tangent_history s s' x T p rm W W') as H.
         destruct (df_tangent s x T p rm), (df_tangent s' x T p rm). simpl in *. congruence.
@@ -503,6 +583,9 @@ Section ThermoProofs.
       destruct (diffusivity dval s x T rm p), (diffusivity dval s' x T rm p). simpl in *. congruence.
     - pose proof (diffusivity_history tval m m s s' x T rm p W W') as H. unfold tracer.
       destruct (diffusivity tval s x T rm p), (diffusivity tval s' x T rm p). simpl in *. congruence.
+    - assert (TP : two_phase x T p) by (destruct m; exact D).
+      pose proof (curvature_history m m s s' x T p rm W W' TP) as H.
+      destruct (curvature s x T p rm), (curvature s' x T p rm). simpl in *. congruence.
   Qed.
 
   (* every query of a history is inside the domain when it is made *)
@@ -526,10 +609,11 @@ Section ThermoProofs.
 
   Lemma run1_method (o : obj) q : fst (fst (run1 o q)) = match q with QMethod m' => m' | _ => fst o end.
   Proof.
-    destruct o as [m s]. destruct q as [x T p rm|x T p rm|x T p rm| |m']; simpl; try reflexivity.
+    destruct o as [m s]. destruct q as [x T p rm|x T p rm|x T p rm|x T p rm| |m']; simpl; try reflexivity.
     - destruct m; [destruct (df_tangent s x T p rm) | destruct (df_sampling s x T p rm) | destruct (df_approx s x T p rm)]; reflexivity.
     - unfold interdiff. destruct (diffusivity dval s x T rm p); reflexivity.
     - unfold tracer. destruct (diffusivity tval s x T rm p); reflexivity.
+    - destruct (curvature s x T p rm); reflexivity.
   Qed.
 
   (* THE statement: the answer to a query does not depend on the history of queries made before it
